@@ -100,7 +100,7 @@ theorem versionOf_merge1 (ver : Ver V) (site : Str → Option Str) (t : Table) (
 
 /-- per-package view of one raw line -/
 def stepLine (cfg : Cfg) (ver : Ver V) (p : Str) (cur : Option Str) (l : Nat × Str) : Option Str :=
-  match parseLine l.2 with
+  match parseLine cfg l.2 with
   | none => cur
   | some (name, pin) =>
     if rejectedByFix cfg ver pin then cur
@@ -109,7 +109,7 @@ def stepLine (cfg : Cfg) (ver : Ver V) (p : Str) (cur : Option Str) (l : Nat × 
 theorem versionOf_processLine (cfg : Cfg) (ver : Ver V) (site : Str → Option Str) (t : Table) (l : Nat × Str) (p : Str) :
     versionOf (processLine cfg ver site t l) p = stepLine cfg ver p (versionOf t p) l := by
   unfold processLine stepLine
-  cases hpl : parseLine l.2 with
+  cases hpl : parseLine cfg l.2 with
   | none => rfl
   | some np =>
     obtain ⟨name, pin⟩ := np
@@ -130,7 +130,7 @@ theorem versionOf_foldl (cfg : Cfg) (ver : Ver V) (site : Str → Option Str) (l
 
 /-- the new-version strings that lines contribute to package `p` (after parsing and the optional fix) -/
 def newsFor (cfg : Cfg) (ver : Ver V) (p : Str) (ls : List (Nat × Str)) : List Str :=
-  ls.filterMap (fun l => match parseLine l.2 with
+  ls.filterMap (fun l => match parseLine cfg l.2 with
     | none => none
     | some (name, pin) => if rejectedByFix cfg ver pin then none else if name = p then some (newVersion pin) else none)
 
@@ -141,7 +141,7 @@ theorem foldl_stepLine (cfg : Cfg) (ver : Ver V) (p : Str) (ls : List (Nat × St
   | cons l ls ih =>
     simp only [List.foldl_cons, newsFor, List.filterMap_cons]
     unfold stepLine
-    cases hpl : parseLine l.2 with
+    cases hpl : parseLine cfg l.2 with
     | none => simp only; exact ih cur
     | some np =>
       obtain ⟨name, pin⟩ := np
@@ -155,12 +155,12 @@ theorem foldl_stepLine (cfg : Cfg) (ver : Ver V) (p : Str) (ls : List (Nat × St
 
 theorem mem_newsFor (cfg : Cfg) (ver : Ver V) (p : Str) (ls : List (Nat × Str)) (n : Str) :
     n ∈ newsFor cfg ver p ls ↔
-      ∃ l ∈ ls, ∃ pin, parseLine l.2 = some (p, pin) ∧ rejectedByFix cfg ver pin = false ∧ n = newVersion pin := by
+      ∃ l ∈ ls, ∃ pin, parseLine cfg l.2 = some (p, pin) ∧ rejectedByFix cfg ver pin = false ∧ n = newVersion pin := by
   simp only [newsFor, List.mem_filterMap]
   constructor
   · rintro ⟨l, hl, h⟩
     refine ⟨l, hl, ?_⟩
-    cases hpl : parseLine l.2 with
+    cases hpl : parseLine cfg l.2 with
     | none => simp [hpl] at h
     | some np =>
       obtain ⟨name, pin⟩ := np
@@ -385,7 +385,7 @@ theorem isBest_unique (ver : Ver V) (ns ns' : List Str) (r r' : Option Str)
           exact ⟨a, b, ha, hb, h'.2 v ((hmem v).1 h.1) hv a b ha hb, h.2 v' ((hmem v').2 h'.1) hv' b a hb ha⟩
 
 theorem news_good_of_lines (cfg : Cfg) (ver : Ver V) (p : Str) (ls : List (Nat × Str))
-    (h : ∀ l ∈ ls, GoodLine ver l.2) : ∀ x ∈ newsFor cfg ver p ls, GoodNew ver x := by
+    (h : ∀ l ∈ ls, GoodLine cfg ver l.2) : ∀ x ∈ newsFor cfg ver p ls, GoodNew ver x := by
   intro x hx
   obtain ⟨l, hl, pin, hpl, _, rfl⟩ := (mem_newsFor cfg ver p ls x).1 hx
   cases pin with
@@ -433,9 +433,10 @@ theorem order_of_good (cfg : Cfg) (ver : Ver V) (ok : VerOk ver) (site site' : S
 /-! ## C. connection with the reference selection -/
 
 theorem specLine_some (ver : Ver V) (raw n : Str) (pin : Option Str) (h : specLine ver raw = some (n, pin)) :
-    parseLine raw = some (n, pin) ∧ plainName n = true ∧ ∀ v, pin = some v → ∃ a, ver.parse v = some a := by
+    parseLineWith SPEC_PATS raw = some (n, pin) ∧ plainName n = true ∧
+      ∀ v, pin = some v → ∃ a, ver.parse v = some a := by
   unfold specLine at h
-  cases hpl : parseLine raw with
+  cases hpl : parseLineWith SPEC_PATS raw with
   | none => simp [hpl] at h
   | some np =>
     obtain ⟨m, q⟩ := np
@@ -465,11 +466,11 @@ theorem plainName_ne_nil (n : Str) (h : plainName n = true) : n ≠ [] := by
   intro e; subst e; simp [plainName] at h
 
 theorem selected_mergeAll (cfg : Cfg) (ver : Ver V) (ok : VerOk ver) (site : Str → Option Str)
-    (ls : List (Nat × Str)) (hspec : ∀ l ∈ ls, parseLine l.2 = specLine ver l.2) (p : Str) :
+    (ls : List (Nat × Str)) (hspec : ∀ l ∈ ls, parseLine cfg l.2 = specLine ver l.2) (p : Str) :
     Selected ver (ls.filterMap (fun l => specLine ver l.2)) p (versionOf (mergeAll cfg ver site ls) p) := by
   -- membership in the meanings
   have hms : ∀ q pin, (q, pin) ∈ ls.filterMap (fun l => specLine ver l.2) ↔
-      ∃ l ∈ ls, parseLine l.2 = some (q, pin) := by
+      ∃ l ∈ ls, parseLine cfg l.2 = some (q, pin) := by
     intro q pin
     simp only [List.mem_filterMap]
     constructor
@@ -568,17 +569,47 @@ theorem strip_allWs (s : Str) (h : ∀ c ∈ s, isWs c = true) : strip s = [] :=
   rw [h1]
   rfl
 
-theorem parseLine_of_body_nil (raw : Str) (h : body raw = []) : parseLine raw = none := by
-  simp [parseLine, h]
+theorem parseLine_of_body_nil (cfg : Cfg) (raw : Str) (h : body raw = []) : parseLine cfg raw = none := by
+  simp [parseLine, parseLineWith, h]
 
-theorem parseLine_of_specChar (raw : Str) (h : hasSpecChar (body raw) = true) : parseLine raw = none := by
-  unfold parseLine
+theorem parseLine_of_specPat (cfg : Cfg) (raw : Str) (h : hasSpecPat cfg.specPats (body raw) = true) :
+    parseLine cfg raw = none := by
+  unfold parseLine parseLineWith
   split
   · rfl
   · simp [parseParts, h]
 
-theorem parseLine_of_many_parts (raw : Str) (h : 2 < (splitEq (body raw) []).length) : parseLine raw = none := by
-  unfold parseLine
+/-- `hasSub` is the substring relation: `pat` occurs in `pre ++ pat ++ post` -/
+theorem hasSub_append (pat pre post : Str) : hasSub pat (pre ++ pat ++ post) = true := by
+  induction pre with
+  | nil =>
+    show hasSub pat (pat ++ post) = true
+    cases hp : pat ++ post with
+    | nil =>
+      have : pat = [] := by
+        cases pat with
+        | nil => rfl
+        | cons _ _ => simp at hp
+      simp [hasSub, this]
+    | cons c cs =>
+      simp only [hasSub, Bool.or_eq_true]
+      left
+      rw [← hp, List.isPrefixOf_iff_prefix]
+      exact List.prefix_append pat post
+  | cons c cs ih =>
+    simp only [List.cons_append, hasSub, Bool.or_eq_true]
+    right
+    simpa using ih
+
+/-- a body that contains a pattern of the rejection set is rejected -/
+theorem hasSpecPat_of_sub (pats : List Str) (pat pre post : Str) (hp : pat ∈ pats) :
+    hasSpecPat pats (pre ++ pat ++ post) = true := by
+  simp only [hasSpecPat, List.any_eq_true]
+  exact ⟨pat, hp, hasSub_append pat pre post⟩
+
+theorem parseLine_of_many_parts (cfg : Cfg) (raw : Str) (h : 2 < (splitEq (body raw) []).length) :
+    parseLine cfg raw = none := by
+  unfold parseLine parseLineWith
   split
   · rfl
   · unfold parseParts
